@@ -3,8 +3,14 @@
 Deductive core: mapping.__distToNode -- the distances from the matched point to the edge's two end nodes measured
 along the edge -- against its definition over the edge's curvilinear abscissa, and lemma on-segment-split: for a
 point on segment i of the geometry the two distances add up to the last abscissa, i.e. to the edge's planimetric
-length (abs_curv is proved cumulative by C17's computeAbsCurv contract).  The matching loop itself (candidate
-search, projection, HMM decoding: contracts of C08 / C20 / C09) is composed by the bounded stand-in only."""
+length (abs_curv is proved cumulative by C17's computeAbsCurv contract).
+
+The candidate loop of __mapOnNetwork is a REGION contract: for every observation a non-empty row of states; every state
+is either the unmatched marker (own position, -1, -1, -1), alone in its row, or (p, e, d0, d1) with e an edge position
+returned by the spatial index, p the nearest point of a non-degenerate segment v of that edge's geometry to the
+observation (contract of mapping.__projOnTrack, C20), at squared distance < search_radius^2, and d0 / d1 the
+distances to the edge's end nodes given by __distToNode for that segment.  HMM decoding (C09) is composed by the
+bounded stand-in only."""
 import z3
 from pyvc.kinds import *
 from pyvc.values import *
@@ -29,6 +35,91 @@ def register(reg):
                            "implies(end == 1, result is not None and same(result, %s - %s + d2d(X(track, i + 1), Y(track, i + 1), coord.E, coord.N)))"
                            % (AC % "npts(track) - 1", AC % "(i + 1)"))]))
 
+    # ---------------------------------------------------------------- the candidate loop of __mapOnNetwork (REGION)
+    # For every observation: the candidate states.  Each state is (matched point, edge position, distance to the edge's
+    # source node, distance to its target node); the unmatched marker (own position, -1, -1, -1) is used only when no
+    # candidate passed the radius test.  The spatial index is opaque here (trusted, C08 proves its coverage separately): it
+    # returns positions of edges of the network (predicate edgepos).
+    from specs import C20
+    C20.register(reg)
+    reg.field("Network", "EDGES", "dict[any,Edge]")
+    reg.field("Network", "_Network__idx_edges", "list[any]")
+    reg.field("Network", "spatial_index", "SpatialIndex")
+    reg.field("SpatialIndex", "csize", "int")
+    reg.field("SpatialIndex", "lsize", "int")
+    reg.field("Edge", "geom", "Track")
+    reg.auto_inline |= {"tracklib.core.network:Network.getEdgeId"}
+    EDGEPOS = z3.Function("edgepos", z3.IntSort(), z3.BoolSort())
+    reg.specfuncs["edgepos"] = lambda ex, st, n: vbool(EDGEPOS(to_int(n)))
+    reg.add(Spec("tracklib.core.spatial_index:SpatialIndex.neighborhood", dict(self="SpatialIndex", obj="ENUCoords", unit="int"), "list[int]",
+                 trusted=True, fresh=["ENUCoords"],
+                 ensures=["all(edgepos(result[q]) for q in range(0, len(result)))"]))
+    G_ = "network.EDGES[network._Network__idx_edges[%s]].geom"
+    n = "npts(track)"
+
+    def seg(g, k, i):
+        return "X(%(g)s, %(k)s), Y(%(g)s, %(k)s), X(%(g)s, %(k)s + 1), Y(%(g)s, %(k)s + 1), X(track, %(i)s), Y(track, %(i)s)" % dict(g=g, k=k, i=i)
+
+    def nonskip(g, k):
+        return "(abs(X(%(g)s, %(k)s) - X(%(g)s, %(k)s + 1)) + abs(Y(%(g)s, %(k)s) - Y(%(g)s, %(k)s + 1)) >= 1e-16)" % dict(g=g, k=k)
+    GE = G_ % "e_"
+    GEOM_OK = ("all(implies(edgepos(e_), 0 <= e_ and e_ < len(network._Network__idx_edges) and network._Network__idx_edges[e_] in network.EDGES and "
+               "twf(%(g)s) and hasname(%(g)s, 'abs_curv') and npts(%(g)s) >= 2 and %(g)s is not track and "
+               "all(not isnan(X(%(g)s, r)) and not isnan(Y(%(g)s, r)) for r in range(0, npts(%(g)s))) and "
+               "any(%(ns)s for k in range(0, npts(%(g)s) - 1))) for e_ in ints)") % dict(g=GE, ns=nonskip(GE, "k"))
+    BOUNDED = ("all(implies(edgepos(e_) and %s, d2seg(%s) < 1e300 * 1e300) for e_ in ints for r in range(0, %s) for k in range(0, npts(%s) - 1))"
+               % (nonskip(GE, "k"), seg(GE, "k", "r"), n, GE))
+    ST = "STATES[%s][%s]"
+    GS = G_ % (ST % ("I0", "C0") + "[1]")
+
+    def matched_at(I, C):
+        s = ST % (I, C)
+        v = "VS_[%s][%s]" % (I, C)
+        g = G_ % (s + "[1]")
+        return ("edgepos(%(s)s[1]) and 0 <= %(v)s and %(v)s < npts(%(g)s) - 1 and %(ns)s and "
+                "%(s)s[0].E == nearx(%(sg)s) and %(s)s[0].N == neary(%(sg)s) and d2seg(%(sg)s) < search_radius * search_radius and "
+                "%(s)s[2] is not None and same(%(s)s[2], col(%(g)s, 'abs_curv', %(v)s) + d2d(X(%(g)s, %(v)s), Y(%(g)s, %(v)s), %(s)s[0].E, %(s)s[0].N)) and "
+                "%(s)s[3] is not None and same(%(s)s[3], col(%(g)s, 'abs_curv', npts(%(g)s) - 1) - col(%(g)s, 'abs_curv', %(v)s + 1) + "
+                "d2d(X(%(g)s, %(v)s + 1), Y(%(g)s, %(v)s + 1), %(s)s[0].E, %(s)s[0].N))") % dict(s=s, v=v, g=g, ns=nonskip(g, v), sg=seg(g, v, I))
+
+    def cand(rows):
+        s = ST % ("I0", "C0")
+        v = "VS_[I0][C0]"
+        matched = ("edgepos(%(s)s[1]) and 0 <= %(v)s and %(v)s < npts(%(g)s) - 1 and %(ns)s and "
+                   "%(s)s[0].E == nearx(%(sg)s) and %(s)s[0].N == neary(%(sg)s) and d2seg(%(sg)s) < search_radius * search_radius and "
+                   "%(s)s[2] is not None and same(%(s)s[2], col(%(g)s, 'abs_curv', %(v)s) + d2d(X(%(g)s, %(v)s), Y(%(g)s, %(v)s), %(s)s[0].E, %(s)s[0].N)) and "
+                   "%(s)s[3] is not None and same(%(s)s[3], col(%(g)s, 'abs_curv', npts(%(g)s) - 1) - col(%(g)s, 'abs_curv', %(v)s + 1) + "
+                   "d2d(X(%(g)s, %(v)s + 1), Y(%(g)s, %(v)s + 1), %(s)s[0].E, %(s)s[0].N))") % dict(s=s, v=v, g=GS, ns=nonskip(GS, v), sg=seg(GS, v, "I0"))
+        unmatched = "%(s)s[1] == -1 and %(s)s[0] is obs(track, I0).position and len(STATES[I0]) == 1" % dict(s=s)
+        return "implies(0 <= I0 and I0 < %s and 0 <= C0 and C0 < len(STATES[I0]), (%s) or (%s))" % (rows, unmatched, matched)
+    SHAPE = ("len(VS_) == len(STATES) and all(len(VS_[r]) == len(STATES[r]) for r in range(0, len(STATES))) and "
+             "all(isold(STATES[r][c][0]) for r in range(0, len(STATES)) for c in range(0, len(STATES[r])))")
+    KEEP = "unchanged_old_class('ENUCoords') and unchanged_old_class('Obs') and unchanged_old_class('Track') and unchanged_old_class('Edge') and unchanged_old_class('Network')"
+    SK = "tuple[ENUCoords,int,opt[float],opt[float]]"
+    reg.add(Spec(Q + "__mapOnNetwork", dict(track="Track", network="Network", STATES="list[list[%s]]" % SK, search_radius="float"), "none",
+                 ghost=dict(I0="int", C0="int", VS_="list[list[int]]", E0="list[int]"),
+                 region=("for i in to_run:", "model = HMM()"), let=dict(to_run="range(len(track))", debug="False"),
+                 requires=["len(STATES) == 0", "len(VS_) == 0", "len(E0) == 0", "twf(track)", "not isnan(search_radius) and search_radius > 0",
+                           "network.spatial_index.csize > 0 and network.spatial_index.lsize > 0",
+                           "all(not isnan(X(track, r)) and not isnan(Y(track, r)) for r in range(0, %s))" % n,
+                           GEOM_OK, BOUNDED],
+                 fresh=["ENUCoords"],
+                 at={"STATES.append([])": ["ghost VS_ = VS_ + [E0]", ("earlier-rows-kept", cand("i"))],
+                     "(p, d, v) = __projOnTrack(track[i].position, eg)": ["use sq_mono(d, search_radius)",
+                                                                            ("candidates-kept-by-the-projection", cand("i + 1"))],
+                     "STATES[-1].append((p, elem, __distToNode(eg, p, v, 0), __distToNode(eg, p, v, 1)))": [
+                         "ghost VS_ = VS_[0:len(VS_) - 1] + [VS_[len(VS_) - 1] + [v]]",
+                         ("shape-after-the-new-candidate", "len(STATES) == i + 1 and " + SHAPE),
+                         ("the-new-candidate", matched_at("i", "(len(STATES[i]) - 1)")),
+                         ("earlier-candidates-kept", "all(STATES[i][c][1] != -1 for c in range(0, len(STATES[i])))"),
+                         ("all-candidates-so-far", cand("i + 1"))],
+                     "STATES[-1].append((track[i].position, -1, -1, -1))": ["ghost VS_ = VS_[0:len(VS_) - 1] + [VS_[len(VS_) - 1] + [-1]]"]},
+                 loops={"1": LoopSpec(inv=["len(STATES) == i", SHAPE, "all(len(STATES[r]) >= 1 for r in range(0, i))", cand("i"), KEEP]),
+                        "1.1": LoopSpec(inv=["len(STATES) == i + 1", SHAPE, "all(len(STATES[r]) >= 1 for r in range(0, i))", cand("i + 1"),
+                                             "all(STATES[i][c][1] != -1 for c in range(0, len(STATES[i])))", KEEP])},
+                 ensures=[("one-row-of-states-per-observation", "len(STATES) == %s and all(len(STATES[r]) >= 1 for r in range(0, %s))" % (n, n)),
+                          ("every-state-is-a-point-of-an-edge-within-the-radius-or-the-unmatched-marker", cand(n))]))
+
 
 def lemmas(reg):
     """on-segment-split: P = A + s (B - A), 0 <= s <= 1  ==>  |AP| + |PB| = |AB|   (distances as non-negative square roots)"""
@@ -43,7 +134,14 @@ def lemmas(reg):
             ("equal-squares-of-non-negatives", [dAP >= 0, s * dAB >= 0, dAP * dAP == (s * dAB) * (s * dAB)], dAP == s * dAB)]
 
 
-FUNCTIONS = [Q + "__distToNode"]
+FUNCTIONS = [Q + "__distToNode", Q + "__mapOnNetwork"]
 ASSUMPTIONS = ["__distToNode: the edge geometry carries the feature abs_curv (computeAbsCurv, C17); positions are ENU without NaN",
-               "__mapOnNetwork's loop (neighbourhood candidates, projection, radius test, HMM decoding) is bounded only",
+               "__mapOnNetwork: the candidate loop is under contract as a REGION (from `for i in to_run:` to `model = HMM()`), debug = False; the "
+               "statements before it (obs_noise feature, module globals STATES / net) and the HMM set-up and decoding after it are outside the region "
+               "(decoding picks one listed candidate per epoch: C09)",
+               "in that region SpatialIndex.neighborhood is an opaque TRUSTED contract: it returns positions of edges of the network (predicate edgepos); "
+               "which edges it must return is C08's coverage theorem, not used here",
+               "region preconditions: every edge position has an entry in EDGES whose geometry is a well-formed track of >= 2 numeric fixes carrying "
+               "abs_curv, with a non-degenerate segment, distinct from the matched track; squared distances below 1e600; search radius > 0",
+               "HMM decoding and the several-tracks-per-call wrapper are bounded only",
                "math.sqrt: r >= 0 and r*r == x (trusted axiom)"]
